@@ -5,6 +5,7 @@ import (
 
 	"berty.tech/go-orbit-db/iface"
 	"berty.tech/go-orbit-db/internal/vstub"
+	"berty.tech/go-orbit-db/stores/basestore"
 	"berty.tech/go-orbit-db/internal/vstubodb"
 	"berty.tech/go-orbit-db/stores/operation"
 )
@@ -124,11 +125,16 @@ func VerifC01Log() {
 	a.SyncFrom(b)
 	b.SyncFrom(a)
 	check()
-	r := vstubodb.Open(NewOrbitDBEventLogStore, "r", blocks, ac, false, nil)
+	// a fresh replica receives the same entries by another route: manual sync,
+	// load from a's disk, or a snapshot saved by a
+	route := vstub.NdChoice("route", 3)
+	r := vstubodb.FreshFrom(NewOrbitDBEventLogStore, a, route, func(ctx context.Context, st iface.Store) error {
+		_, err := basestore.SaveSnapshot(ctx, st)
+		return err
+	})
 	if r == nil {
 		return
 	}
-	r.SyncFrom(a)
 	vstub.Cover("converged")
 	vstub.Assert(vstubodb.SameStrings(listing(a), listing(b)), "C01 writers a and b list the same entries in the same order")
 	vstub.Assert(vstubodb.SameStrings(listing(a), listing(r)), "C01 fresh replica lists the same entries in the same order")
